@@ -139,6 +139,16 @@ def reject(lengths, forcing, ts_len, ts, via, why):
 
 
 def generate(tier, rng):
+    import json
+    seen = set()
+    for kind, params in _generate():
+        sig = kind + json.dumps(params, sort_keys=True)
+        if sig not in seen:        # the enumeration below names some forcings twice
+            seen.add(sig)
+            yield kind, params
+
+
+def _generate():
     vias = ("dict", "dataclass")
     for via in vias:
         for forcing in ("ustar", "z0", "both"):
